@@ -9,12 +9,16 @@ echo "demo on clean tree: exit $(run_demo)"
 git -C "$wt" apply "$d/patch.diff" || { echo "PATCH DOES NOT APPLY"; exit 3; }
 echo "files touched: $(git -C "$wt" diff --stat | tail -1)"
 echo "demo with patch:    exit $(run_demo)"; tail -3 /var/tmp/seed_demo.log | cut -c1-300
-mkdir -p /var/tmp/seedhome && rm -rf /var/tmp/seedhome/.streamflow; (cd "$wt" && HOME=/var/tmp/seedhome PYTHONPATH="$wt" timeout 2400 /venv/bin/python -m pytest -q -p no:cacheprovider --timeout=900 --continue-on-collection-errors --junitxml=/var/tmp/seed_junit.xml -n 6 $(cat /verif/tools/stable_ids.txt) >/var/tmp/seed_tests.log 2>&1)
+mkdir -p /var/tmp/seedhome && rm -rf /var/tmp/seedhome/.streamflow
+# test_cwl_loop shares one sqlite file per HOME: run it serially (it is flaky under xdist on a loaded machine, with or without a patch)
+(cd "$wt" && HOME=/var/tmp/seedhome PYTHONPATH="$wt" timeout 2400 /venv/bin/python -m pytest -q -p no:cacheprovider --timeout=900 --junitxml=/var/tmp/seed_junit.xml -n 6 $(grep -v test_cwl_loop /verif/tools/stable_ids.txt) >/var/tmp/seed_tests.log 2>&1)
+(cd "$wt" && HOME=/var/tmp/seedhome PYTHONPATH="$wt" timeout 2400 /venv/bin/python -m pytest -q -p no:cacheprovider --timeout=900 --junitxml=/var/tmp/seed_junit2.xml -n 0 $(grep test_cwl_loop /verif/tools/stable_ids.txt) >/var/tmp/seed_tests2.log 2>&1)
 python3 - <<'PY'
 import json, xml.etree.ElementTree as ET
 stable=set(json.load(open('/root/.vp/BASELINE.json'))['stable_pass'])
 passed=set()
-for tc in ET.parse('/var/tmp/seed_junit.xml').iter('testcase'):
+import itertools
+for tc in itertools.chain(ET.parse('/var/tmp/seed_junit.xml').iter('testcase'), ET.parse('/var/tmp/seed_junit2.xml').iter('testcase')):
     if not any(c.tag in ('failure','error','skipped') for c in tc):
         passed.add(f"{tc.get('classname')}::{tc.get('name')}")
 miss=sorted(stable-passed)
